@@ -991,7 +991,7 @@ impl Engine for SinkSim {
             Which::C16 => Meta {
                 engine: "sinksim",
                 level: "fault_enumeration",
-                rule: "a scenario is a command tree (depth <= 3, hyphenated/underscored/non-ASCII names, aliases, hidden items, value hints, possible values, adversarial text) x one of the six ahead-of-time generators x a sink fault plan (short writes, EINTR, chunk caps 1..4096, Ok(0), WouldBlock, BrokenPipe, StorageFull at a byte offset, flush error) x a command history (fresh, cloned, pre-built, previously parsed). For scripts with <= 400 write calls and the `enumerate` flag, EVERY write-call index is additionally faulted once with EINTR, a 1-byte short write and a hard error. Bash scenarios also source the delivered script in a controlled `bash --noprofile --norc` process (cleared environment) and issue completion queries (word path + partial word). Non-trivial = >= 1 sink fault fired or >= 1 bash query answered; distinct = distinct scenario hash",
+                rule: "a scenario is a command tree (depth <= 3, hyphenated/underscored/non-ASCII names, aliases, hidden items, value hints, possible values, adversarial text) x one of the six ahead-of-time generators x a sink fault plan (short writes, EINTR, chunk caps 1..4096, Ok(0), WouldBlock, BrokenPipe, StorageFull at a byte offset, flush error) x a command history (fresh, cloned, pre-built, previously parsed). For scripts with <= 400 write calls and the `enumerate` flag, EVERY write-call index is additionally faulted once with EINTR, a 1-byte short write and a hard error. Bash scenarios also source the delivered script in a controlled `bash --noprofile --norc` process (cleared environment) and issue completion queries (word path + partial word). Non-trivial = >= 1 sink fault fired or >= 1 bash query answered; distinct = distinct scenario hash. Added during the build phase: generate_to on a real scratch directory (missing / file / pre-existing, another binary name), level-scoped coverage for every shell, conflicts, required options",
                 real_components: &["clap_complete::aot::generate + the five shell generators", "clap_complete_nushell::Nushell", "Command::build / set_bin_name", "GNU bash 5.2 (bash -n and execution of the generated function)"],
                 stub_components: &["FaultyWriter (the &mut dyn Write sink)", "COMP_WORDS/COMP_CWORD set by the harness instead of readline"],
                 workload_only_clauses: &["coverage of options/values/subcommands is a function of the tree: checked on the bytes the sink delivered, but the sink is not what it depends on", "only bash is installed: the other five scripts are checked as text, not executed"],
@@ -1001,7 +1001,7 @@ impl Engine for SinkSim {
             Which::C19 => Meta {
                 engine: "sinksim",
                 level: "fault_enumeration",
-                rule: "a scenario is a command tree with adversarial text in every slot (leading `.`/`'`, backslashes, newlines, empty, quotes, roff escapes) x a man page target (root or a subcommand, as clap_mangen::generate_to walks them) x a sink fault plan x a command history. Man::render writes through the fault-injecting sink; for pages with <= 400 write calls and the `enumerate` flag EVERY write-call index is faulted once with EINTR, a 1-byte short write and a hard error. Non-trivial = >= 1 sink fault fired; distinct = distinct scenario hash",
+                rule: "a scenario is a command tree with adversarial text in every slot (leading `.`/`'`, backslashes, newlines, empty, quotes, roff escapes) x a man page target (root or a subcommand, as clap_mangen::generate_to walks them) x a sink fault plan x a command history. Man::render writes through the fault-injecting sink; for pages with <= 400 write calls and the `enumerate` flag EVERY write-call index is faulted once with EINTR, a 1-byte short write and a hard error. Non-trivial = >= 1 sink fault fired; distinct = distinct scenario hash. Added during the build phase: adversarial version / headings / Man builder overrides, late subcommand, page of the generated help subcommand, clap_mangen::generate_to on a real scratch directory, required and doubly mode-hidden options, shared display orders",
                 real_components: &["clap_mangen::Man::new / render", "clap_mangen::render", "roff 0.2 (Roff::to_writer)", "Command::build"],
                 stub_components: &["FaultyWriter (the &mut dyn Write sink)"],
                 workload_only_clauses: &["coverage, hidden-item absence and the control-line clause are functions of the tree; they are checked on the delivered bytes but do not depend on the sink"],
